@@ -122,7 +122,7 @@ def r1_kneighbors(ctx):
 
 def r2_median(ctx):
     qn = "verde.distances.median_distance"
-    K.roles_rule(ctx, "R2", [qn], with_return=False)
+    K.roles_rule(ctx, "R2", [qn], with_return=False, require={qn: [{"tree-query"}]})
     for p in ctx.paths(qn):
         if p.exit != "return":
             continue
@@ -173,7 +173,7 @@ def r2_median(ctx):
 
 def r3_distance_mask(ctx):
     qn = "verde.mask.distance_mask"
-    K.roles_rule(ctx, "R3", [qn], with_return=False)
+    K.roles_rule(ctx, "R3", [qn], with_return=False, require={qn: [{"tree-query"}]})
     for p in ctx.paths(qn):
         if p.exit != "return":
             continue
@@ -226,7 +226,7 @@ def r3_distance_mask(ctx):
 
 def r4_grid_coordinates(ctx):
     qn = "verde.mask._get_grid_coordinates"
-    K.roles_rule(ctx, "R4", [qn], with_return=False)
+    K.roles_rule(ctx, "R4", [qn], with_return=False, require={qn: [{"meshgrid-operands"}]})
     neither = any(p.exit == "raise" and lookup(p.decided, ("cmp", "is", ("param", "coordinates"), NONE)) is True and lookup(p.decided, ("cmp", "is", ("param", "grid"), NONE)) is True for p in ctx.paths(qn))
     ctx.check("R4", qn + "|rejects-neither", True if neither else False, "neither coordinates nor grid raises", bad="neither coordinates nor grid is accepted", fn=qn)
     for p in ctx.paths(qn):
